@@ -542,8 +542,8 @@ Lemma recorded_setup_string name v :
   word name -> word v -> v <> lit "-f" -> recorded_version (setup_string cfg name v) = Some v.
 Proof.
   intros Hn Hv Hf. unfold recorded_version, setup_string.
-  replace (name ++ [c_space] ++ v ++ lit " -f " ++ c_flavor cfg ++ lit " -Z " ++ encode_path (c_root cfg))
-    with (name ++ c_space :: (v ++ c_space :: (lit "-f " ++ c_flavor cfg ++ lit " -Z " ++ encode_path (c_root cfg)))).
+  replace (name ++ [c_space] ++ v ++ lit " -f " ++ flavor_of cfg name v ++ lit " -Z " ++ encode_path (c_root cfg))
+    with (name ++ c_space :: (v ++ c_space :: (lit "-f " ++ flavor_of cfg name v ++ lit " -Z " ++ encode_path (c_root cfg)))).
   - rewrite (words_head name _ Hn), (words_head v _ Hv).
     destruct (str_eqb_spec v (lit "-f")); [contradiction|reflexivity].
   - change (lit " -f ") with (c_space :: lit "-f "). reflexivity.
